@@ -109,8 +109,38 @@ def _nonneg_guard(fn, bb, a, b):
                     d = fm.lin.add(neg, -1)
                     if not d.terms and d.k >= 0:
                         return True
+                if b2 == p and s2 == s and fm.rel == "!=" and fm.lin.k == 0 and len(fm.lin.terms) == 1:
+                    # unsigned x != 0  ==>  x - 1 >= 0
+                    la, lb = lin(a), lin(b)
+                    if not lb.terms and lb.k == 1 and _same_var(fm.lin, la):
+                        return True
             stack.append(p)
     return False
+
+
+def _same_var(l1, l2):
+    """both are  ±1 * x  for the same variable x (phi of a mutable parameter counts as that parameter)"""
+    def var(l):
+        if len(l.terms) != 1 or l.k != 0:
+            return None
+        t = list(l.terms)[0]
+        return _base_var(t)
+    v1, v2 = var(l1), var(l2)
+    return v1 is not None and v1 == v2
+
+
+def _base_var(t):
+    if t[0] == "param":
+        return ("param", t[1])
+    if t[0] == "loop":
+        return ("param", t[1])
+    if t[0] == "phi":
+        vs = {_base_var(x) for x in t[1] if x[0] in ("param", "loop")}
+        if len(vs) == 1:
+            return vs.pop()
+    if t[0] in ("cast", "deref", "ref"):
+        return _base_var(t[1])
+    return None
 
 
 def proportional(fn, bound):
